@@ -384,6 +384,29 @@ func runC04(c *Ctx) {
 			}
 		}
 	}
+	if h2c == nil {
+		// the challenge hash may be computed in a helper of the same package (depth 2): its call stands for H2
+		var reaches func(g *ssa.Function, d int) bool
+		reaches = func(g *ssa.Function, d int) bool {
+			if g == nil || g.Blocks == nil || g.Pkg != pth.Pkg {
+				return false
+			}
+			for _, ci := range callInstrs(g) {
+				if o := calleeObj(ci); o != nil && o.Name() == "H2" {
+					return true
+				}
+				if d > 0 && reaches(ci.Common().StaticCallee(), d-1) {
+					return true
+				}
+			}
+			return false
+		}
+		for _, ci := range callInstrs(pth) {
+			if g := ci.Common().StaticCallee(); g != nil && g != pth && reaches(g, 1) {
+				h2c = ci
+			}
+		}
+	}
 	okP := eqc != nil && h2c != nil && h1c != nil
 	if okP {
 		for _, rp := range returnPaths(pth, 1) {
@@ -398,6 +421,13 @@ func runC04(c *Ctx) {
 		if !derivesFromOrCalls(eqc.Common().Args[1], h2c) && !derivesFromOrCalls(eqc.Common().Args[0], h2c) {
 			okP = false
 		}
+	}
+	// what the challenge hash covers
+	{
+		h1, pkIn, vrfIn, where := vrfTranscript(w, pth)
+		c.sites++
+		okT := h1 && pkIn && vrfIn
+		c.Check(fname(pth)+"#challenge-binds-message-key-and-output", pth.Pos(), okT, ifelse(okT, "the challenge transcript contains H1(m), the public key and the VRF point of the proof ("+where+")", fmt.Sprintf("the challenge hash does not cover (H1 of the message=%v, the public key=%v, the VRF point carried in the proof=%v) directly (%s): without the output point in the transcript a key holder can choose the VRF output freely and still present a proof that verifies — sortition seats and priorities can be ground", h1, pkIn, vrfIn, where)))
 	}
 	c.sites++
 	c.Check(fname(pth)+"#index-only-if-challenge-matches", pth.Pos(), okP, ifelse(okP, "index returned only under hmac.Equal(s, H2(transcript)), H1 over the message", "ProofToHash returns an index without the recomputed challenge matching the proof's, or not over the message"))
@@ -774,4 +804,179 @@ func callsToOpt(fn *ssa.Function, callee *ssa.Function) []ssa.CallInstruction {
 		return nil
 	}
 	return callsTo(fn, o)
+}
+
+// vrfTranscript analyses the challenge of (PublicKey).ProofToHash: the hash
+// H2 is taken over a byte buffer; which values are written into that buffer?
+// Reports whether the transcript contains H1(m) of the message parameter, the
+// public key of the receiver, and the VRF point as carried in the proof — each
+// reached WITHOUT passing through a curve operation (a point that only enters
+// through [s]VRF does not bind the output). The buffer may be filled in a
+// helper (also a variadic one): parameters are followed to the arguments.
+func vrfTranscript(w *World, pth *ssa.Function) (hasH1, hasPK, hasVRF bool, where string) {
+	curveOps := map[string]bool{"ScalarMult": true, "ScalarBaseMult": true, "Add": true, "Double": true}
+	// the function that calls H2 on a buffer: pth or a repository function it calls (depth 2)
+	type cand struct {
+		fn   *ssa.Function
+		call ssa.CallInstruction
+		via  []ssa.CallInstruction
+	}
+	var found *cand
+	var search func(fn *ssa.Function, via []ssa.CallInstruction, depth int)
+	search = func(fn *ssa.Function, via []ssa.CallInstruction, depth int) {
+		for _, ci := range callInstrs(fn) {
+			o := calleeObj(ci)
+			if o == nil {
+				continue
+			}
+			if o.Name() == "H2" && found == nil {
+				found = &cand{fn, ci, via}
+				return
+			}
+		}
+		if depth == 0 {
+			return
+		}
+		for _, ci := range callInstrs(fn) {
+			g := ci.Common().StaticCallee()
+			if g != nil && g.Blocks != nil && g.Pkg == pth.Pkg && g != fn && found == nil {
+				search(g, append(append([]ssa.CallInstruction(nil), via...), ci), depth-1)
+			}
+		}
+	}
+	search(pth, nil, 2)
+	if found == nil {
+		return false, false, false, "no call of H2 reachable from ProofToHash"
+	}
+	bind := map[*ssa.Parameter]ssa.Value{}
+	for _, ci := range found.via {
+		g := ci.Common().StaticCallee()
+		for i, prm := range g.Params {
+			if i < len(ci.Common().Args) {
+				bind[prm] = ci.Common().Args[i]
+			}
+		}
+	}
+	// the buffer
+	var buf ssa.Value
+	if bc, ok := stripConvNoBind(callArgs(found.call)[0]).(*ssa.Call); ok && calleeObj(bc) != nil && calleeObj(bc).Name() == "Bytes" {
+		buf = callRecv(bc)
+	}
+	if buf == nil {
+		return false, false, false, "H2 is not taken over the bytes of a buffer"
+	}
+	var items []ssa.Value
+	for _, ci := range callInstrs(found.fn) {
+		if o := calleeObj(ci); o != nil && o.Name() == "Write" && callRecv(ci) == buf {
+			items = append(items, callArgs(ci)[0])
+		}
+	}
+	seen := map[ssa.Value]bool{}
+	var walk func(v ssa.Value)
+	storesInto := func(al *ssa.Alloc) []ssa.Value {
+		var out []ssa.Value
+		var rec func(addr ssa.Value)
+		rec = func(addr ssa.Value) {
+			if addr.Referrers() == nil {
+				return
+			}
+			for _, r := range *addr.Referrers() {
+				switch x := r.(type) {
+				case *ssa.Store:
+					if x.Addr == addr {
+						out = append(out, x.Val)
+					}
+				case *ssa.IndexAddr:
+					if x.X == addr {
+						rec(x)
+					}
+				case *ssa.FieldAddr:
+					if x.X == addr {
+						rec(x)
+					}
+				}
+			}
+		}
+		rec(al)
+		return out
+	}
+	walk = func(v ssa.Value) {
+		if v == nil || seen[v] {
+			return
+		}
+		seen[v] = true
+		switch x := v.(type) {
+		case *ssa.Parameter:
+			if a, ok := bind[x]; ok {
+				walk(a)
+			}
+		case *ssa.Call:
+			o := calleeObj(x)
+			if o != nil && curveOps[o.Name()] {
+				return
+			}
+			if o != nil && o.Name() == "H1" {
+				if a := callArgs(x); len(a) > 0 && stripConvNoBind(a[0]) == ssa.Value(pth.Params[1]) {
+					hasH1 = true
+				}
+				return
+			}
+			if r := callRecv(x); r != nil {
+				walk(r)
+			}
+			for _, a := range x.Call.Args {
+				walk(a)
+			}
+		case *ssa.Extract:
+			walk(x.Tuple)
+		case *ssa.Phi:
+			for _, e := range x.Edges {
+				walk(e)
+			}
+		case *ssa.UnOp:
+			walk(x.X)
+		case *ssa.IndexAddr:
+			walk(x.X)
+		case *ssa.FieldAddr:
+			if derivesFrom(x.X, func(y ssa.Value) bool { return y == ssa.Value(pth.Params[0]) }) {
+				if n := fieldOfAddr(x).Name(); n == "X" || n == "Y" {
+					hasPK = true
+				}
+			}
+			walk(x.X)
+		case *ssa.Slice:
+			base := stripConvNoBind(x.X)
+			if p, isP := base.(*ssa.Parameter); isP {
+				if a, ok := bind[p]; ok {
+					base = stripConvNoBind(a)
+				}
+			}
+			if base == ssa.Value(pth.Params[2]) {
+				hasVRF = true
+				return
+			}
+			walk(x.X)
+		case *ssa.Alloc:
+			for _, sv := range storesInto(x) {
+				walk(sv)
+			}
+		case *ssa.MakeInterface:
+			walk(x.X)
+		case *ssa.ChangeType:
+			walk(x.X)
+		case *ssa.Convert:
+			walk(x.X)
+		case *ssa.ChangeInterface:
+			walk(x.X)
+		case *ssa.Lookup:
+			walk(x.X)
+		case *ssa.BinOp:
+			walk(x.X)
+			walk(x.Y)
+		}
+	}
+	for _, it := range items {
+		walk(it)
+	}
+	return hasH1, hasPK, hasVRF, fmt.Sprintf("%d values written into the challenge buffer in %s", len(items), found.fn.Name())
 }
